@@ -52,6 +52,8 @@ type State struct {
 	Hh       int    `json:"hh"`
 	Hs       int    `json:"hs"`
 	Frozen   int    `json:"frozen"`
+	SnapDisk int    `json:"snapDisk"`
+	Recov    int    `json:"recov"`
 	Err      string `json:"err"`
 }
 
@@ -81,6 +83,7 @@ type Universe struct {
 	blocks []*types.Block
 	num    []int
 	idOf   map[common.Hash]int
+	rootOf map[common.Hash]int
 }
 
 var universes = map[string]*Universe{}
@@ -115,6 +118,7 @@ func buildUniverse(t Tree) *Universe {
 		}
 		roots[blks[0].Root()] = b
 	}
+	u.rootOf = roots
 	universes[string(kb)] = u
 	return u
 }
@@ -244,6 +248,18 @@ func (n *Node) project() State {
 		tl.Fatal("Ancients: %v", err)
 	}
 	st.Frozen = int(fr)
+	// persistent flat-state layer and snapshot recovery number (hash scheme with snapshots)
+	st.SnapDisk, st.Recov = 0, -1
+	if n.snaps && n.scheme == rawdb.HashScheme {
+		if id, ok := u.rootOf[rawdb.ReadSnapshotRoot(n.db)]; ok {
+			st.SnapDisk = id
+		} else {
+			st.SnapDisk = -2
+		}
+		if r := rawdb.ReadSnapshotRecoveryNumber(n.db); r != nil {
+			st.Recov = int(*r)
+		}
+	}
 	return st
 }
 
